@@ -52,6 +52,9 @@ type Engine struct {
 	unmodelledIface  map[string]bool
 	inlined          map[string]bool
 	calledByContract map[string]bool
+	execContracts    map[*Contract]bool
+	stableDone       map[string]bool
+	inlineOnly       map[string]bool
 	specErrors       map[string]bool
 	specFuncsDefined map[string]*definedSpecFunc
 	usedLibModels    map[string]bool
@@ -82,7 +85,7 @@ func newEngine(repo string) *Engine {
 	return &Engine{repo: repo, spkgs: map[string]*ssa.Package{}, repoPkgs: map[string]bool{}, files: map[*token.File]*ast.File{},
 		contracts: map[string]*ContractFile{}, ctByFn: map[*ssa.Function]*Contract{}, fnByName: map[string]map[string]*ssa.Function{},
 		funcIDs: map[string]int{}, globalIDs: map[string]int{}, siteOcc: map[siteKey][]ssa.Instruction{}, loops: map[*ssa.Function]map[*ssa.BasicBlock]*loopInfo{},
-		unsupportedSeen: map[string]bool{}, unmodelled: map[string]bool{}, unmodelledIface: map[string]bool{}, inlined: map[string]bool{}, calledByContract: map[string]bool{},
+		unsupportedSeen: map[string]bool{}, unmodelled: map[string]bool{}, unmodelledIface: map[string]bool{}, inlined: map[string]bool{}, calledByContract: map[string]bool{}, execContracts: map[*Contract]bool{}, stableDone: map[string]bool{}, inlineOnly: map[string]bool{},
 		specErrors: map[string]bool{}, specFuncsDefined: map[string]*definedSpecFunc{}, usedLibModels: map[string]bool{}, assumptions: map[string]bool{},
 		solverTimeout: 10, workers: 16}
 }
@@ -382,6 +385,19 @@ func (e *Engine) ifaceContract(t types.Type, method string) *Contract {
 
 func (e *Engine) allContractErrors() []string {
 	var out []string
+	for n := range e.inlineOnly {
+		if !e.inlined[n] {
+			out = append(out, fmt.Sprintf("%s has an 'inline' contract and was left out of the unit list, but no unit executed it", n))
+		}
+	}
+	// vacuity guard: every event clause of a contract whose function was executed must have matched a program point
+	for ct := range e.execContracts {
+		for _, ev := range ct.Events {
+			if ev.Fired == 0 {
+				out = append(out, fmt.Sprintf("%s: line %d: event clause '%s %s' of %s never matched a program point (its assertions are vacuous)", ct.Pkg, ev.Line, ev.Kind, ev.Target, ct.Target))
+			}
+		}
+	}
 	for _, cf := range e.contracts {
 		out = append(out, cf.Errors...)
 	}
